@@ -18,6 +18,7 @@ pub struct VmObs {
     pub sigs: Vec<((Vec<u8>, Vec<u8>, Vec<u8>), bool)>,
     pub backedge: bool,
     pub max_stack_bytes: usize,
+    pub btoi_bytes: usize,
 }
 
 fn val_bytes(v: &Value) -> Option<Vec<u8>> { match v { Value::Bytes(b) => Some(b.clone().into()), _ => None } }
@@ -44,6 +45,7 @@ pub fn observe(ops: &[OpCode], heap: &[(u16, Value)], step_cap: u64) -> VmObs {
     let mut steps = 0u64;
     let mut backedge = false;
     let mut max_stack_bytes = 0usize;
+    let mut btoi_bytes = 0usize;
     let stepped = catch_unwind(AssertUnwindSafe(|| {
         let mut ex = VerifExecutor::new(ops.to_vec(), hm.clone());
         while ex.pc() < ops.len() {
@@ -66,6 +68,9 @@ pub fn observe(ops: &[OpCode], heap: &[(u16, Value)], step_cap: u64) -> VmObs {
                             }
                         }
                     }
+                }
+                OpCode::BtoI => {
+                    if let Some(Value::Bytes(b)) = ex.stack.last() { if b.len() > btoi_bytes { btoi_bytes = b.len(); } }
                 }
                 _ => {}
             }
@@ -94,7 +99,7 @@ pub fn observe(ops: &[OpCode], heap: &[(u16, Value)], step_cap: u64) -> VmObs {
             }
         }
     }
-    VmObs { result, steps, weight, calls, bytes, hashes, sigs, backedge, max_stack_bytes }
+    VmObs { result, steps, weight, calls, bytes, hashes, sigs, backedge, max_stack_bytes, btoi_bytes }
 }
 
 pub fn case_line(ops: &[OpCode], heap: &[(u16, Value)], o: &VmObs) -> String {
@@ -351,6 +356,15 @@ pub fn adversarial(r: &mut Rng) -> Vec<Vec<OpCode>> {
     v.push(vec![PushI(U256::from(258u32)), ItoB, BtoI]);
     v.push(vec![]);
     v.push(vec![Noop]);
+    // known finding F12: k consecutive Loop opcodes cost 2^k opcodes_car_weight calls
+    v.push(vec![Loop(1, 65535); 14]);
+    // known finding F13: BtoI materialises the whole byte string before looking at its length
+    {
+        let mut p = vec![PushB(vec![7; 8])];
+        for _ in 0..14 { p.push(Dup); p.push(BAppend); }
+        p.push(BtoI);
+        v.push(p);
+    }
     v
 }
 
@@ -404,8 +418,29 @@ pub fn run(tier: &str, seed: u64, em: &mut Emitter) {
         if o.steps as u128 > o.weight { st.bump("STEPS_EXCEED_WEIGHT"); }
         let panicked = o.result.is_err();
         lines.push(case_line(ops, heap, &o));
-        metas.push(format!("{{\"prog\":{:?},\"heap_entries\":{},\"steps\":{},\"weight\":\"{}\",\"result\":{:?},\"panicked\":{}}}",
-            cf::ops(ops), heap.len(), o.steps, o.weight, match &o.result { Ok(Some(v)) => cf::value(v), Ok(None) => "fail".into(), Err(e) => e.clone() }, panicked));
+        // reflections of C11 / C09 on the real observation
+        let nloops = ops.iter().filter(|x| matches!(x, OpCode::Loop(..))).count();
+        let n = ops.len() as u64;
+        let mut viol: Vec<String> = vec![];
+        let mut class: Vec<&str> = vec![];
+        let mut c11: Vec<String> = vec![];
+        if o.steps as u128 > o.weight { c11.push(format!("executed {} instructions, weight {}", o.steps, o.weight)); }
+        if o.calls > 4 * (n + 1) * (n + 1) {
+            c11.push(format!("weighing {} opcodes took {} opcodes_car_weight calls", n, o.calls));
+            if nloops >= 2 { class.push("F12"); }
+        }
+        if o.btoi_bytes > 65535 + 64 {
+            c11.push(format!("BtoI materialised a {}-byte string", o.btoi_bytes));
+            class.push("F13");
+        }
+        if !c11.is_empty() { viol.push(format!("\"C11\":{:?}", c11.join("; "))); }
+        if panicked { viol.push(format!("\"C09\":{:?}", match &o.result { Err(e) => e.clone(), _ => String::new() })); }
+        let res_s = match &o.result { Ok(Some(v)) => cf::value(v), Ok(None) => "fail".into(), Err(e) => e.clone() };
+        let res_s = if res_s.len() > 300 { format!("{}...", &res_s[..300]) } else { res_s };
+        let prog_s = cf::ops(ops);
+        let prog_s = if prog_s.len() > 1500 { format!("{}...", &prog_s[..1500]) } else { prog_s };
+        metas.push(format!("{{\"prog\":{:?},\"heap_entries\":{},\"steps\":{},\"weight\":\"{}\",\"calls\":{},\"result\":{:?},\"panicked\":{},\"violates\":{{{}}},\"class\":[{}]}}",
+            prog_s, heap.len(), o.steps, o.weight, o.calls, res_s, panicked, viol.join(","), class.iter().map(|c| format!("\"{}\"", c)).collect::<Vec<_>>().join(",")));
     }
     st.add("programs", lines.len() as u64);
     em.case_files("vm", "vmcase", "check_vm", &lines, &metas, 300);
